@@ -297,6 +297,10 @@ def against_reference(vals, ref):
     return None
 
 
+def _r(x):
+    return [_r(v) for v in x] if isinstance(x, (list, tuple)) else round(float(x), 9)
+
+
 def tag_of(setting):
     return ",".join("%s=%s" % (o, v) for o, v in zip(OPTS, setting) if v != dict(zip(OPTS, DEFAULT))[o]) or "default"
 
@@ -361,19 +365,18 @@ def check(job):
                 r = against_reference(v, ref)
                 if r:
                     off[setting] = r
-    if off:
-        # the differential oracle is blind to a fault shared by the default (or by every) setting: say
-        # which settings leave the reference meaning
-        everyone = len(off) == len([m for m in built.values() if not isinstance(m, Exception)])
-        who = "all-settings" if everyone else "+".join(sorted(tag_of(s) for s in off))
-        if len(who) > 80:
-            who = "%d-settings" % len(off)
-        name, got, want = off[DEFAULT] if DEFAULT in off else off[sorted(off)[0]]
+    if DEFAULT in off:
+        # A setting that leaves the reference while the default keeps it has already been reported above
+        # (its values differ from the default's).  What the differential oracle cannot see is a fault that
+        # the default setting shares: report it, and say whether every setting shares it.
+        ok = [s for s, m in built.items() if not isinstance(m, Exception)]
+        who = "all-settings" if len(off) == len(ok) else "default"
+        name, got, want = off[DEFAULT]
         viol.append(
             (
                 "reference-differs:%s:%s:%s" % (fam, who, name),
-                "%s (settings leaving the reference: %s) has entries %r for a top-level equation whose Modelica residual is %r\n%s"
-                % (name, who, [round(float(x), 9) for x in got], [round(float(x), 9) for x in np.ravel(np.array(want, dtype=object)).tolist()] if not isinstance(want[0] if want else 0, list) else want, label),
+                "%s of the default setting (%d of %d settings leave the reference: %s) has entries %r for a top-level equation whose "
+                "Modelica residual is %r\n%s" % (name, len(off), len(ok), ", ".join(sorted(tag_of(s) for s in off)), _r(got), _r(want), label),
                 case,
             )
         )
